@@ -42,6 +42,8 @@ def run_property(pid, tier, root, write=True, out=sys.stdout, evidence_dir=None,
             extra = mod.thorough(chk, repo)
         if not chk.obls:
             raise core.AnalysisError("no obligation was generated - every rule has gone blind")
+        if chk.pending_errors:
+            raise core.AnalysisError("; ".join(chk.pending_errors))
     except core.AnalysisError as ex:
         error = str(ex)
     except RecursionError as ex:   # pragma: no cover
